@@ -100,6 +100,9 @@ class BGPPeering(BGPFactory):
         # reference to the BGPProtocol instance in ESTAB state
         self.estab_protocol = None
 
+        # the connector of the latest outgoing TCP connection attempt
+        self.connector = None
+
     def buildProtocol(self, addr):
 
         """Builds a BGP protocol instance
@@ -141,6 +144,10 @@ class BGPPeering(BGPFactory):
         :param reason: connection failed reason
         """
 
+        if connector is not self.connector:
+            # an attempt we aborted ourselves, the FSM has already moved on
+            LOG.info("[%s]Aborted connection attempt ended", self.peer_addr)
+            return
         error_msg = "[%s]Client connection failed: %s" % (self.peer_addr, reason.getErrorMessage())
         self.handler.on_connection_failed(self.peer_addr, reason.getErrorMessage())
         LOG.info(error_msg)
@@ -179,7 +186,15 @@ class BGPPeering(BGPFactory):
         """BGP ManualStop event (event 2) Returns a DeferredList that
         will fire once the connection(s) have closed"""
 
+        self._abort_pending_connect()
         return self.fsm.manual_stop()
+
+    def _abort_pending_connect(self):
+        """Abort the outstanding TCP connection attempt, if any, so that there is
+        never more than one connection or attempt to the peer."""
+        connector, self.connector = self.connector, None
+        if connector is not None and connector.state == 'connecting':
+            connector.stopConnecting()
 
     def connection_closed(self, pro, disconnect=False):
         """
@@ -240,7 +255,8 @@ class BGPPeering(BGPFactory):
 
         if self.fsm.state != bgp_cons.ST_ESTABLISHED:
 
-            connector = reactor.connectTCP(
+            self._abort_pending_connect()
+            self.connector = connector = reactor.connectTCP(
                 host=self.peer_addr,
                 port=bgp_cons.PORT,
                 factory=self,
